@@ -20,7 +20,7 @@ class SimFault(Exception):
 
 
 RETRYABLE_KINDS = ('timeout', 'conn', 'readtimeout', 'incomplete', 'streaming')
-FATAL_KINDS = ('client', 'value', 'simfault')
+FATAL_KINDS = ('client', 'value', 'simfault', 'eio', 'permission', 'runtime')
 
 
 def make_exc(kind, fid):
@@ -48,6 +48,9 @@ def make_exc(kind, fid):
         e = BrokenPipeError(errno.EPIPE, 'injected %s' % fid)
     elif kind == 'eio':
         e = OSError(errno.EIO, 'injected %s' % fid)
+    elif kind == 'permission':
+        # an OSError that is neither a ConnectionError nor a timeout
+        e = PermissionError(errno.EACCES, 'injected %s' % fid)
     elif kind == 'simfault':
         e = SimFault('injected %s' % fid)
     elif kind == 'runtime':
